@@ -240,6 +240,17 @@ theorem footprint_clean : ∀ w ∈ Gen.sharedWrites, rowOK w = true := by decid
     has spare capacity (theorems of part A′). -/
 theorem no_append_into_shared_slices : ∀ w ∈ Gen.sharedWrites, rowClass w ≠ .appendSpare := by decide
 
+/-- The writes the translator sets aside as per-call state really are per call: each such type exists, no document
+    struct reaches it through fields / elements / pointers, and when reachable code writes it, reachable code also
+    allocates it (`newSchemaValidationSettings` inside every VisitJSON: `settings.trial++` of the oneOf/anyOf
+    candidates, the multi-error and defaults flags). Making such an object part of the document — or caching one in a
+    package variable, which `globals_consistent` sees — breaks this. -/
+theorem per_call_types_are_per_call : ∀ r ∈ Gen.perCallState, perCallOK r = true := by decide
+
+/-- …and the classification is in use: validation settings are written during validation (non-vacuity). -/
+theorem per_call_settings_are_written :
+    Gen.perCallState.any (fun r => r.name == "schemaValidationSettings" && decide (r.writes > 0)) = true := by decide
+
 /-- The footprint denoted by the table is clean for the configuration denoted by the table. -/
 theorem table_acts_clean :
     ∀ a ∈ tableActs Gen.sharedWrites, cleanAct (tableCfg Gen.sharedWrites) a = true := by decide
